@@ -152,6 +152,28 @@ NOTES.update({
  "C19-7": ("missed at first", "Hermitian scales beyond machine epsilon (2^-56, 2^-60, 1e-30, 2^-200, 1e30)"),
  "C20-7": ("missed at first", "unknown option values paired with inputs / budgets for which the option is never consulted (triangular, diagonal, identity, zero, 1x1, max_iter = 0, zero right-hand side)"),
 })
+NOTES.update({
+ "C04-7": ("missed at first", "uniform scalings 1e-6 / 1e-9 crossed with fast-but-not-one-step converging classes (identity plus a small low-rank term, near identity, clustered eigenvalues) at tolerances 1e-10 / 1e-12"),
+ "C15-7": ("caught", ""),
+ "C16-7": ("missed at first", "right-hand sides with exact-zero structure (zero first / last column, zero leading / trailing rows, single entry, unit vectors) and column independence of the block solve"),
+ "C01-8": ("missed at first", "every product returned during a history is kept and re-checked after the later calls (a result must not be a view of an internal buffer); also for every battery entry in C14"),
+ "C02-8": ("caught", ""),
+ "C03-8": ("missed at first (a fresh solver object per call)", "one solver object used for an unrelated problem and then twice for the judged one: iterate and histories equal a fresh solver's"),
+ "C05-8": ("caught", ""),
+ "C06-8": ("caught", ""),
+ "C07-8": ("caught", ""),
+ "C08-8": ("missed at first", "Hermitian violations confined to ONE component (w, i, j or k) of one entry / the diagonal / a wrongly symmetric pair, in C08 and the C20 table"),
+ "C09-8": ("caught", ""),
+ "C10-8": ("caught", ""),
+ "C11-8": ("caught", ""),
+ "C12-8": ("missed at first", "matrices with more than 256 rows or columns (300x6, 5x270, 257x4, 130x129), exact rank"),
+ "C13-8": ("caught", ""),
+ "C14-8": ("caught", ""),
+ "C17-8": ("caught by thorough only", "even-sized kernels whose values equal their own 180-degree flip (box, half-sample Gaussian, symmetrised random)"),
+ "C18-8": ("missed at first", "the four channels in different dtypes (uint8 / int64 / bool / float32 real part next to float64 colours and vice versa)"),
+ "C19-8": ("missed at first", "nilpotent (strictly triangular) inputs and the documented options res_tol in {1e-10, None, 1e-6} x block_purify in {True, False} for the complex-adjoint variant"),
+ "C20-8": ("caught", ""),
+})
 for d in sorted(glob.glob(os.path.join(HERE, "seeded", "C*"))):
     pid = os.path.basename(d)[:3]
     agent = {}
